@@ -16,7 +16,7 @@ from .c02 import total_descriptor, ALL, _is_contents_iter
 from . import targets
 from .. import uscan
 
-UNIT_CATS = ('convert-from-unit', 'sum-mix', 'add-units', 'to-storage', 'from-storage', 'qstr', 'qstr-format', 'storage-label', 'round-then-scale',
+UNIT_CATS = ('convert-from-unit', 'sum-mix', 'add-units', 'to-storage', 'from-storage', 'qstr', 'qstr-format', 'truncating-division', 'storage-label', 'round-then-scale',
              'compare-units', 'storage-compare', 'add-cell')
 
 
